@@ -13,7 +13,7 @@ K_pm == (2 :> "poolmulti")
 
 \* View without the history variables: the values an operation will receive are
 \* a function of (operation, attempt, position), so this determines the future.
-viewNH == <<sq, inflight, nposted, cq, backlog, op, blocked, awoken, res, bring, vbuf>>
+viewNH == <<sq, inflight, nposted, cq, backlog, op, blocked, awoken, res, bring, vbuf, alive>>
 
 \* Compact, injective text encoding of viewNH (node identity in the export).
 RECURSIVE Cat(_, _)
@@ -30,7 +30,7 @@ EncOpFull(o) == EncOp(o) \o ToString(op[o].waker) \o ToString(op[o].att) \o B(in
 OpSeq == CHOOSE s \in [1..Cardinality(Ops) -> Ops] : \A i, j \in 1..Cardinality(Ops) : i < j => s[i] < s[j]
 Enc == Cat(EncEntry, sq) \o "|" \o Cat(EncCqe, cq) \o "|" \o Cat(EncCqe, backlog) \o "|"
        \o Cat(EncOpFull, OpSeq) \o "|" \o Cat(EncInt, blocked) \o "|" \o B(awoken)
-       \o "|" \o ToString(res) \o ToString(bring) \o ToString(vbuf)
+       \o "|" \o ToString(res) \o ToString(bring) \o ToString(vbuf) \o B(alive)
 
 \* Export of the labelled transition graph: one line per explored transition.
 OpenSet == {v \in ResVals : FdKind(OpOfVal(v)) /\ res[v] \in {"kernel", "owned", "closing", "leaked"}}
